@@ -279,11 +279,25 @@ Definition rgb24_value (inMax outMax outShift i : Z) : Z := u_of 32 (Z.shiftl (s
 Definition rgb24_table_byte (inMax outMax outShift : Z) (swap : bool) (idx : Z) : Z :=
   nth (Z.to_nat (idx mod 3)) (entry24_bytes swap (rgb24_value inMax outMax outShift (idx / 3))) 0.
 
+(* the three-table functions for 24-bpp clients index the tables correctly (entry 3*c, bytewise OR of
+   the three 3-byte entries) once the source does (switch re-read from tabletrans24template.c) *)
+Definition rgb24_fixed : bool := match c10_rgb24_probe with [3] => true | _ => false end.
+
+Definition lor_bytes (a b : list Z) : list Z := map (fun p => Z.lor (fst p) (snd p)) (combine a b).
+
+Definition rgb24_entry (inMax outMax outShift : Z) (swap : bool) (c : Z) : list Z :=
+  entry24_bytes swap (rgb24_value inMax outMax outShift c).
+
 Definition pixel_fn24 (st : strategy) (sf cf : pixfmt) (cm : cmap) (v : Z) : option (list Z) :=
   let v' := if bpp sf =? 24 then Z.land v 16777215 else v in
   match st with
   | SRGB =>
       let sw := need_swap sf cf in
+      if rgb24_fixed then
+        Some (lor_bytes (lor_bytes (rgb24_entry (rmax sf) (rmax cf) (rs cf) sw (comp v' (rs sf) (rmax sf)))
+                                   (rgb24_entry (gmax sf) (gmax cf) (gs cf) sw (comp v' (gs sf) (gmax sf))))
+                        (rgb24_entry (bmax sf) (bmax cf) (bs cf) sw (comp v' (bs sf) (bmax sf))))
+      else
       let outValue :=
         Z.lor (Z.lor (rgb24_table_byte (rmax sf) (rmax cf) (rs cf) sw (comp v' (rs sf) (rmax sf)))
                      (rgb24_table_byte (gmax sf) (gmax cf) (gs cf) sw (comp v' (gs sf) (gmax sf))))
@@ -312,6 +326,12 @@ Definition translate_fn (st : strategy) (sf cf : pixfmt) (cm : cmap)
                       (if bpp cf =? 24 then pixel_fn24 st sf cf cm else pixel_fn st sf cf cm) (Z.to_nat w))
               (Z.to_nat step) (Z.to_nat h) input 0
   end.
+
+(* rfbSetClientColourMap(cl, first, n) for a true-colour client: the colour map the client's lookup
+   table reflects afterwards ([table_cm] = the map it was built from, [screen_cm] = screen->colourMap
+   now).  Nothing happens for true-colour servers or before the client is ready. *)
+Definition recolour (sf : pixfmt) (ready : bool) (table_cm screen_cm : cmap) : cmap :=
+  if tc sf || negb ready then table_cm else screen_cm.
 
 (* the byte ranges (offset, length) loaded, in order; independent of the data *)
 Definition reads_fn (st : strategy) (sf cf : pixfmt) (stride w h : Z) : list (Z * Z) :=
